@@ -33,8 +33,10 @@
 (*                  (the intended design)                                  *)
 (*        "prefix"  beartype 0.23.0:  qualname.startswith(outer qualname)  *)
 (*                  -- a foreign class  DerivedAux  merely referenced from *)
-(*                  class  Derived  is decorated too (run as a mutant; TLC *)
-(*                  reports AliasUntouched / RouteEq)                      *)
+(*                  class  Derived  is decorated too, and a class that     *)
+(*                  references itself (Derived.ref = Derived) recurses     *)
+(*                  until RecursionError (run as a mutant; TLC reports     *)
+(*                  AliasUntouched / RouteEq / ReturnsSelf)                *)
 (* Mutant "none" | "inherited" | "alias" | "doublewrap" | "cm2func" |      *)
 (*        "nometa" | "wrapunann" | "nowrap"                                *)
 (***************************************************************************)
@@ -45,7 +47,7 @@ CONSTANTS Rule, Mutant,
           VB, VB2,        \* variants of  Base.a , Base.a2          ("none" = absent)
           VD, VO,         \* variants of  Derived.b , Derived.a (overrides Base.a)
           VI, VDeep,      \* variants of  Derived.Inner.c , Derived.Inner.Deep.d
-          Aliases,        \* subset of {"none", "Aux", "DerivedAux", "Base"}: Derived.ref = <that class>
+          Aliases,        \* subset of {"none", "Aux", "DerivedAux", "Base", "Self"}: Derived.ref = <that class>
           DCs,            \* subset of {"none", "B", "D"}: the class that may become a dataclass
           Orders,         \* names of the decoration orders to script (see Scripts)
           Confs,          \* subset of {"D", "O0", "N"}
@@ -89,53 +91,53 @@ Ntc(p) == p \in {"n", "m"}
 (*   class 2 Derived(Base) role 3 Derived.b  role 4 Derived.a (override)    *)
 (*   class 3 Derived.Inner role 5 .c         class 4 Derived.Inner.Deep .d  *)
 (*   class 5 Aux (.m)      class 6 DerivedAux (.m)   -- foreign, top level  *)
-(* function ids: role r, part p  ->  3*(r-1)+p ;  25 __init__ 26 __repr__   *)
-(* 27 __eq__ ; wrappers are appended.                                       *)
+(* function ids: the function parts that exist, numbered densely in role    *)
+(* order; wrappers and the functions synthesised by @dataclass are appended *)
 (* ------------------------------------------------------------------------ *)
 NRoles == 8
-NOrig == 27
 RoleVar(w, r) ==
   CASE r = 1 -> w.vb [] r = 2 -> w.vb2 [] r = 3 -> w.vd [] r = 4 -> w.vo [] r = 5 -> w.vi [] r = 6 -> w.ve
     [] r = 7 -> (IF w.al = "Aux" THEN "Fa" ELSE "none")
     [] r = 8 -> (IF w.al = "DerivedAux" THEN "Fa" ELSE "none")
 
-Cell(used, ann, ntc, wraps, by, meta) ==
-  [used |-> used, ann |-> ann, ntc |-> ntc, wraps |-> wraps, by |-> by, meta |-> meta]
+Cell(ann, ntc, wraps, by, meta) == [ann |-> ann, ntc |-> ntc, wraps |-> wraps, by |-> by, meta |-> meta]
 
-InitCell(w, j) ==
-  IF j > 3 * NRoles THEN Cell(FALSE, FALSE, FALSE, 0, "-", j)
-  ELSE LET r == ((j - 1) \div 3) + 1
-           p == ((j - 1) % 3) + 1
-           l == Variant(RoleVar(w, r)).parts[p]
-       IN Cell(l # "-", Ann(l), Ntc(l), 0, "-", j)
+Letter(w, q) == Variant(RoleVar(w, q[1])).parts[q[2]]
+UsedParts(w) == { q \in (1..NRoles) \X (1..3) : Letter(w, q) # "-" }
+FuncId(w, r, p) == Cardinality({ q \in UsedParts(w) : q[1] < r \/ (q[1] = r /\ q[2] <= p) })
+InitHeap(w) ==
+  [j \in 1..Cardinality(UsedParts(w)) |->
+     LET q == CHOOSE q \in UsedParts(w) : FuncId(w, q[1], q[2]) = j
+     IN Cell(Ann(Letter(w, q)), Ntc(Letter(w, q)), 0, "-", j)]
 
 Opt(v, s) == IF v = "none" THEN <<>> ELSE <<s>>
-MkSlot(name, v, r) ==
+MkSlot(w, name, v, r) ==
   [name |-> name, kind |-> Variant(v).kind,
-   parts |-> [p \in 1..3 |-> IF Variant(v).parts[p] = "-" THEN 0 ELSE 3 * (r - 1) + p], cls |-> 0]
+   parts |-> [p \in 1..3 |-> IF Variant(v).parts[p] = "-" THEN 0 ELSE FuncId(w, r, p)], cls |-> 0]
 ClsSlot(name, kind, c) == [name |-> name, kind |-> kind, parts |-> <<0, 0, 0>>, cls |-> c]
 DataSlot(name) == ClsSlot(name, "data", 0)
 Class(qn, bases, owner, present, slots) ==
   [qn |-> qn, bases |-> bases, owner |-> owner, present |-> present, slots |-> slots]
-AliasTarget(al) == CASE al = "Aux" -> 5 [] al = "DerivedAux" -> 6 [] al = "Base" -> 1 [] OTHER -> 0
+AliasTarget(al) == CASE al = "Aux" -> 5 [] al = "DerivedAux" -> 6 [] al = "Base" -> 1 [] al = "Self" -> 2 [] OTHER -> 0
 
 Classes(w) == <<
   Class(<<"Base">>, <<>>, 0, TRUE,
-        Opt(w.vb, MkSlot("a", w.vb, 1)) \o Opt(w.vb2, MkSlot("a2", w.vb2, 2))
+        Opt(w.vb, MkSlot(w, "a", w.vb, 1)) \o Opt(w.vb2, MkSlot(w, "a2", w.vb2, 2))
         \o (IF w.dc = "B" THEN <<DataSlot("fld")>> ELSE <<>>)),
   Class(<<"Derived">>, <<1>>, 0, TRUE,
-        Opt(w.vd, MkSlot("b", w.vd, 3)) \o Opt(w.vo, MkSlot("a", w.vo, 4))
+        Opt(w.vd, MkSlot(w, "b", w.vd, 3)) \o Opt(w.vo, MkSlot(w, "a", w.vo, 4))
         \o (IF w.vi # "none" THEN <<ClsSlot("Inner", "nested", 3)>> ELSE <<>>)
-        \o (IF w.al # "none" THEN <<ClsSlot("ref", "alias", AliasTarget(w.al))>> ELSE <<>>)
-        \o (IF w.dc = "D" THEN <<DataSlot("fld")>> ELSE <<>>)),
+        \o (IF w.dc = "D" THEN <<DataSlot("fld")>> ELSE <<>>)
+        \* last: "Self" can only be assigned once the class exists (Derived.ref = Derived)
+        \o (IF w.al # "none" THEN <<ClsSlot("ref", "alias", AliasTarget(w.al))>> ELSE <<>>)),
   Class(<<"Derived", ".", "Inner">>, <<>>, 2, w.vi # "none",
-        Opt(w.vi, MkSlot("c", w.vi, 5))
+        Opt(w.vi, MkSlot(w, "c", w.vi, 5))
         \o (IF w.ve # "none" THEN <<ClsSlot("Deep", "nested", 4)>> ELSE <<>>)),
   Class(<<"Derived", ".", "Inner", ".", "Deep">>, <<>>, 3, w.vi # "none" /\ w.ve # "none",
-        Opt(w.ve, MkSlot("d", w.ve, 6))),
-  Class(<<"Aux">>, <<>>, 0, w.al = "Aux", IF w.al = "Aux" THEN <<MkSlot("m", "Fa", 7)>> ELSE <<>>),
+        Opt(w.ve, MkSlot(w, "d", w.ve, 6))),
+  Class(<<"Aux">>, <<>>, 0, w.al = "Aux", IF w.al = "Aux" THEN <<MkSlot(w, "m", "Fa", 7)>> ELSE <<>>),
   Class(<<"Derived", "Aux">>, <<>>, 0, w.al = "DerivedAux",
-        IF w.al = "DerivedAux" THEN <<MkSlot("m", "Fa", 8)>> ELSE <<>>) >>
+        IF w.al = "DerivedAux" THEN <<MkSlot(w, "m", "Fa", 8)>> ELSE <<>>) >>
 NClasses == 6
 
 Universes ==
@@ -193,11 +195,13 @@ vars == <<u, cls, fn, mark, stack, ret, hist, prog, pre, log>>
 Snap == [cls |-> cls, fn |-> fn, mark |-> mark]
 NoRet == [t |-> "none", c |-> 0, i |-> 0, same |-> <<TRUE, TRUE, TRUE>>, obj |-> "unspecified"]
 RetCls(c) == [t |-> "cls", c |-> c, i |-> 0, same |-> <<TRUE, TRUE, TRUE>>, obj |-> "same"]
+Raised == [t |-> "raise", c |-> 0, i |-> 0, same |-> <<TRUE, TRUE, TRUE>>, obj |-> "unspecified"]
+MaxDepth == 6      \* activations of beartype_type after which the model says "RecursionError"
 
 Init ==
   /\ u \in Universes
   /\ cls = Classes(u)
-  /\ fn = [j \in 1..NOrig |-> InitCell(u, j)]
+  /\ fn = InitHeap(u)
   /\ mark = [c \in 1..NClasses |-> FALSE]
   /\ stack = <<>> /\ ret = NoRet /\ hist = <<>> /\ log = <<>>
   /\ prog \in (IF Free THEN {<<>>} ELSE Scripts(u))
@@ -217,7 +221,7 @@ DecorFunc(h, f, k) ==
   LET h1 == IF k = "O0" THEN [h EXCEPT ![f].ntc = TRUE] ELSE h     \* no_type_check(func) marks the callable
       c == h1[f]
   IN IF Unbeartypeable(c) THEN [fn |-> h1, out |-> f]
-     ELSE [fn |-> Append(h1, Cell(TRUE, c.ann, FALSE, f, k,
+     ELSE [fn |-> Append(h1, Cell(c.ann, FALSE, f, k,
                                   IF Mutant = "nometa" THEN 0 ELSE c.meta)),   \* update_wrapper
            out |-> Len(h1) + 1]
 
@@ -295,12 +299,13 @@ BeginMember(op) ==
 BeginDataclass(op) ==
   /\ Quiet /\ op.t = "DC" /\ Schedulable(op) /\ Advance
   /\ pre' = Snap /\ hist' = Append(hist, op) /\ log' = <<>>
-  /\ cls' = [cls EXCEPT ![op.c].slots = @ \o << [name |-> "__init__", kind |-> "func", parts |-> <<25, 0, 0>>, cls |-> 0],
-                                              [name |-> "__repr__", kind |-> "func", parts |-> <<26, 0, 0>>, cls |-> 0],
-                                              [name |-> "__eq__",   kind |-> "func", parts |-> <<27, 0, 0>>, cls |-> 0] >>]
-  /\ fn' = [fn EXCEPT ![25] = Cell(TRUE, TRUE, FALSE, 0, "-", 25),
-                      ![26] = Cell(TRUE, FALSE, FALSE, 0, "-", 26),
-                      ![27] = Cell(TRUE, FALSE, FALSE, 0, "-", 27)]
+  /\ LET n == Len(fn) IN
+     /\ cls' = [cls EXCEPT ![op.c].slots =
+                   @ \o << [name |-> "__init__", kind |-> "func", parts |-> <<n + 1, 0, 0>>, cls |-> 0],
+                           [name |-> "__repr__", kind |-> "func", parts |-> <<n + 2, 0, 0>>, cls |-> 0],
+                           [name |-> "__eq__",   kind |-> "func", parts |-> <<n + 3, 0, 0>>, cls |-> 0] >>]
+     /\ fn' = fn \o << Cell(TRUE, FALSE, 0, "-", n + 1), Cell(FALSE, FALSE, 0, "-", n + 2),
+                       Cell(FALSE, FALSE, 0, "-", n + 3) >>
   /\ ret' = RetCls(op.c)
   /\ UNCHANGED <<u, mark, stack>>
 
@@ -343,9 +348,16 @@ WalkProperty == WalkFuncLike({"property"})
 
 \* a class-valued attribute whose qualname passes the test: recursive beartype_type
 WalkClassTaken ==
-  /\ AtMember /\ Member.kind \in ClassKinds /\ Descends(Member.cls, Top.c)
+  /\ AtMember /\ Member.kind \in ClassKinds /\ Descends(Member.cls, Top.c) /\ Len(stack) <= MaxDepth
   /\ stack' = Popped \o <<[Top EXCEPT !.i = @ + 1]>> \o <<[c |-> Member.cls, i |-> 0, k |-> Top.k]>>
   /\ UNCHANGED <<u, cls, fn, mark, ret, hist, prog, pre, log>>
+
+\* only reachable with Rule = "prefix" (or the alias mutant): a class that references itself passes
+\* the qualname test, is not yet marked, and is walked again and again: RecursionError
+RecursionOverflow ==
+  /\ AtMember /\ Member.kind \in ClassKinds /\ Descends(Member.cls, Top.c) /\ Len(stack) > MaxDepth
+  /\ stack' = <<>> /\ ret' = Raised
+  /\ UNCHANGED <<u, cls, fn, mark, hist, prog, pre, log>>
 
 WalkClassSkipped ==
   /\ AtMember /\ Member.kind \in ClassKinds /\ ~Descends(Member.cls, Top.c)
@@ -373,6 +385,7 @@ Next ==
   \/ DecorateClass \/ DecorateMember \/ MakeDataclass
   \/ CheckMarkHit \/ CheckMarkMiss
   \/ WalkFunc \/ WalkDescriptor \/ WalkProperty \/ WalkClassTaken \/ WalkClassSkipped \/ WalkData
+  \/ RecursionOverflow
   \/ SetMark
 
 Spec == Init /\ [][Next]_vars
@@ -390,7 +403,7 @@ NoOpCase(c, k) == Optimized \/ ~c.ann \/ c.ntc \/ k = "O0" \/ IsWrapper(c)
 WantFunc(h, f, k) ==
   LET h1 == IF k = "O0" /\ ~Optimized THEN [h EXCEPT ![f].ntc = TRUE] ELSE h
   IN IF NoOpCase(h[f], k) THEN [fn |-> h1, out |-> f]
-     ELSE [fn |-> Append(h1, Cell(TRUE, h[f].ann, FALSE, f, k, h[f].meta)), out |-> Len(h1) + 1]
+     ELSE [fn |-> Append(h1, Cell(h[f].ann, FALSE, f, k, h[f].meta)), out |-> Len(h1) + 1]
 WantParts(h, parts, k) ==
   LET d1 == IF parts[1] = 0 THEN [fn |-> h, out |-> 0] ELSE WantFunc(h, parts[1], k)
       d2 == IF parts[2] = 0 THEN [fn |-> d1.fn, out |-> 0] ELSE WantFunc(d1.fn, parts[2], k)
@@ -501,7 +514,7 @@ Row ==
   [u |-> u, hist |-> hist, optimized |-> Optimized,
    classes |-> [c \in 1..NClasses |-> [qn |-> cls[c].qn, bases |-> cls[c].bases, owner |-> cls[c].owner,
                                        present |-> cls[c].present]],
-   funcs |-> { [id |-> j, ann |-> fn[j].ann, ntc |-> fn[j].ntc] : j \in { j \in 1..NOrig : fn[j].used } },
+   funcs |-> { [id |-> j, ann |-> fn[j].ann, ntc |-> fn[j].ntc] : j \in { j \in 1..Len(fn) : fn[j].wraps = 0 } },
    obs |-> Proj(Snap), ret |-> ret,
    verdicts |-> { VerdictOf(r) : r \in VerdictRows }]
 
